@@ -4,6 +4,8 @@
  * AN_SCEN 2: {"a":[{"x":1},{"y":2}]} move /a/0 -> /a/1/z  the target parent no longer exists once the source has left: must be refused
  * AN_SCEN 3: {"a":[1,2,3]}  remove /a/2 ; add /a/- V   two operations on array elements: result [1,2,V] (the tail link must survive the removal)
  * AN_SCEN 4: {"a":[1,2,3]}  move /a/2 -> /a/0        result [3,1,2]
+ * AN_SCEN 5: {"a":[1,2,3]}  add /a/5 V               index past the end: refused, array unchanged, the rejected value is released (ledger)
+ * AN_SCEN 6: {"a":[1,2,3]}  add /a/1 V               insertion in the middle: [1,V,2,3]
  * In every scenario: no memory error, every block released exactly once by the end (ledger), document still a healthy tree. */
 #define VF_BUILTIN_STRINGS
 #define VF_BUILTIN_MEMCPY
@@ -41,10 +43,13 @@ void h_u_ap_nested_b(void)
     append(p, strmember("op", 2, "remove", 6)); append(p, strmember("path", 4, "/a/2", 4));
     { cJSON *q = mknode(cJSON_Object), *v = member("value", 5, cJSON_Number); v->valueint = val; v->valuedouble = (double)val; append(patches, q);
       append(q, strmember("op", 2, "add", 3)); append(q, strmember("path", 4, "/a/-", 4)); append(q, v); }
+#elif AN_SCEN >= 5
+    { cJSON *v = member("value", 5, cJSON_Number); v->valueint = val; v->valuedouble = (double)val;
+      append(p, strmember("op", 2, "add", 3)); append(p, strmember("path", 4, AN_SCEN == 5 ? "/a/5" : "/a/1", 4)); append(p, v); }
 #else
     append(p, strmember("op", 2, "move", 4));
 #endif
-#if AN_SCEN == 3
+#if AN_SCEN == 3 || AN_SCEN >= 5
 #elif AN_SCEN == 4
     append(p, strmember("from", 4, "/a/2", 4)); append(p, strmember("path", 4, "/a/0", 4));
 #elif AN_SCEN == 0
@@ -55,7 +60,19 @@ void h_u_ap_nested_b(void)
     append(p, strmember("from", 4, "/a/0", 4)); append(p, strmember("path", 4, "/a/1/z", 6));
 #endif
     status = cJSONUtils_ApplyPatchesCaseSensitive(doc, patches);
-#if AN_SCEN >= 3
+#if AN_SCEN == 5
+    __CPROVER_assert(status != 0, "C16 add at an index past the end of the array is refused");
+    {
+        cJSON *aa = cJSON_GetObjectItemCaseSensitive(doc, "a"); cJSON *e0 = aa ? aa->child : NULL, *e1 = e0 ? e0->next : NULL, *e2 = e1 ? e1->next : NULL;
+        __CPROVER_assert(aa != NULL && healthy(aa) && healthy(doc) && e2 != NULL && e2->next == NULL && e0->valueint == 1 && e1->valueint == 2 && e2->valueint == 3, "C16 refused add leaves the array [1,2,3] unchanged");
+    }
+#elif AN_SCEN == 6
+    __CPROVER_assert(status == 0, "C16 add at an index inside the array succeeds");
+    {
+        cJSON *aa = cJSON_GetObjectItemCaseSensitive(doc, "a"); cJSON *e0 = aa ? aa->child : NULL, *e1 = e0 ? e0->next : NULL, *e2 = e1 ? e1->next : NULL, *e3 = e2 ? e2->next : NULL;
+        __CPROVER_assert(aa != NULL && healthy(aa) && healthy(doc) && e3 != NULL && e3->next == NULL && e0->valueint == 1 && e1->valueint == val && e2->valueint == 2 && e3->valueint == 3, "C16 add /a/1: [1,V,2,3] in order, healthy chain");
+    }
+#elif AN_SCEN >= 3
     __CPROVER_assert(status == 0, "C16 operations on array elements succeed");
     {
         cJSON *aa = cJSON_GetObjectItemCaseSensitive(doc, "a"); cJSON *e0 = aa ? aa->child : NULL, *e1 = e0 ? e0->next : NULL, *e2 = e1 ? e1->next : NULL;
